@@ -64,18 +64,25 @@ fn amounts() -> Vec<A> {
     v
 }
 
+/// Unit identity as the oracle sees it: the enum discriminant, NOT the unit type's own `==` (which is part of the
+/// code under test: a `PartialEq` that identifies two units sharing a symbol - seed r7-C14 - must not leak into the
+/// expectation).
+fn same_unit<T>(a: &T, b: &T) -> bool {
+    core::mem::discriminant(a) == core::mem::discriminant(b)
+}
+
 /// the statement, literally
 fn expected(entries: &[Entry], a: A, from: SynNoRefUnit, to: SynNoRefUnit) -> Option<(A, SynNoRefUnit)> {
-    if from == to {
+    if same_unit(&from, &to) {
         return Some((a, to));
     }
-    entries.iter().find(|e| e.0 == from && e.1 == to).map(|e| (a * e.2 + e.3, to))
+    entries.iter().find(|e| same_unit(&e.0, &from) && same_unit(&e.1, &to)).map(|e| (a * e.2 + e.3, to))
 }
 
 /// a fused multiply-add is an equally faithful evaluation of amount x factor + offset (binary back-end)
 #[cfg(not(feature = "dec"))]
 fn fused_ok(entries: &[Entry], a: A, from: SynNoRefUnit, to: SynNoRefUnit, got: A) -> bool {
-    entries.iter().find(|e| e.0 == from && e.1 == to).map(|e| amt::same(a.mul_add(e.2, e.3), got)).unwrap_or(false)
+    entries.iter().find(|e| same_unit(&e.0, &from) && same_unit(&e.1, &to)).map(|e| amt::same(a.mul_add(e.2, e.3), got)).unwrap_or(false)
 }
 #[cfg(feature = "dec")]
 fn fused_ok(_entries: &[Entry], _a: A, _from: SynNoRefUnit, _to: SynNoRefUnit, _got: A) -> bool {
@@ -114,11 +121,11 @@ fn judge_table(entries: &[Entry], got: impl Fn(&SynNoRef, SynNoRefUnit) -> Optio
                             rep.inc("same_unit_cases");
                         } else {
                             rep.inc("mapped_cases");
-                            if entries.iter().filter(|e| e.0 == from && e.1 == to).count() > 1 {
+                            if entries.iter().filter(|e| same_unit(&e.0, &from) && same_unit(&e.1, &to)).count() > 1 {
                                 rep.inc("shadowed_entry_cases");
                             }
                         }
-                        gu == wu && (amt::same(*ga, *wa) || (i != j && fused_ok(entries, a, from, to, *ga)))
+                        same_unit(gu, wu) && (amt::same(*ga, *wa) || (i != j && fused_ok(entries, a, from, to, *ga)))
                     }
                     _ => false,
                 };
@@ -266,7 +273,7 @@ fn temperature(b: Bind<Temperature>, iu: usize, rep: &mut Report) {
                     let by_method = conv(a, i, j);
                     let by_trait = guard(|| via_bound(TEMPERATURE_CONVERTER, &Temperature::new(a, b.units[i]), b.units[j]).map(|r| (r.amount(), r.unit())));
                     let same = match (&by_method, &by_trait) {
-                        (Ok(Some((x, u))), Ok(Some((y, v)))) => amt::same(*x, *y) && u == v,
+                        (Ok(Some((x, u))), Ok(Some((y, v)))) => amt::same(*x, *y) && same_unit(u, v),
                         (Ok(None), Ok(None)) | (Err(_), Err(_)) => true,
                         _ => false,
                     };
@@ -285,7 +292,7 @@ fn temperature(b: Bind<Temperature>, iu: usize, rep: &mut Report) {
                     }
                     Ok(None) => rep.violation("C14/temperature-pair-missing", mk(), "None".into(), format!("{} {}", spec.v.show(), b.vname(j))),
                     Ok(Some((ra, ru))) => {
-                        if ru != b.units[j] {
+                        if !same_unit(&ru, &b.units[j]) {
                             rep.violation("C14/temperature-unit", mk(), format!("{:?}", ru), format!("{:?}", b.units[j]));
                         }
                         if i == j {
